@@ -944,6 +944,48 @@ impl<'c, T: Sut> Sim<'c, T> {
             return Ok(());
         }
         let idxs: Vec<usize> = srcs.iter().map(|s| s % self.pop.len()).collect();
+        // Merging lockstep twins must give lockstep twins: when the single source has a lockstep
+        // peer, the peer is merged as well and the two results continue in lockstep (this is how a
+        // difference in *statistics* between twins - invisible to reads - becomes observable).
+        if !twin && idxs.len() == 1 && self.room(2) {
+            if let Some(g) = self.pop[idxs[0]].group {
+                let peers = self.peers(idxs[0]);
+                if peers.len() >= 2 {
+                    let (gp, ci, cu, cs) = {
+                        let gr = self.group(g);
+                        (gr.prop, gr.cmp_idx, gr.cmp_used, gr.cmp_ser)
+                    };
+                    let a = peers[0];
+                    let b = peers[1];
+                    self.merge_into_pop(&[a])?;
+                    let na = self.pop.len() - 1;
+                    self.merge_into_pop(&[b])?;
+                    let nb = self.pop.len() - 1;
+                    let ng = self.new_group(gp, ci, cu, cs);
+                    self.pop[na].group = Some(ng);
+                    self.pop[nb].group = Some(ng);
+                    self.cx.hit(Probe::merge_of_lockstep_twins);
+                    self.event = true;
+                    self.state_steps += 1;
+                    return Ok(());
+                }
+            }
+        }
+        self.merge_into_pop(&idxs)?;
+        let n = self.pop.len() - 1;
+        self.event = true;
+        self.state_steps += 1;
+        if twin && self.room(1) {
+            let d = self.spawn_default()?;
+            // coded regions: indices legitimately differ between a coded and a raw container
+            self.join(n, d, 10, self.coded == 0, false, false);
+        }
+        Ok(())
+    }
+
+    /// merge_regions / merge_capacity over the given population indices; the result is appended.
+    fn merge_into_pop(&mut self, idxs: &[usize]) -> R<()> {
+        let idxs: Vec<usize> = idxs.to_vec();
         let owner = self.fresh_owner();
         let r = {
             let refs: Vec<&T> = idxs.iter().map(|i| &self.pop[*i].sut).collect();
@@ -978,20 +1020,12 @@ impl<'c, T: Sut> Sim<'c, T> {
             }
         }
         self.pop.push(ni);
-        let n = self.pop.len() - 1;
         self.cx.hit(Probe::merge_made);
         if idxs.is_empty() {
             self.cx.hit(Probe::merge_zero_sources);
         }
         if idxs.len() >= 2 {
             self.cx.hit(Probe::merge_many_sources);
-        }
-        self.event = true;
-        self.state_steps += 1;
-        if twin && self.room(1) {
-            let d = self.spawn_default()?;
-            // coded regions: indices legitimately differ between a coded and a raw container
-            self.join(n, d, 10, self.coded == 0, false, false);
         }
         Ok(())
     }
